@@ -183,6 +183,22 @@ class ShiftInterp:
     def _block(self, stmts, env, rets):
         for s in stmts:
             self._stmt(s, env, rets)
+            if self._terminates(s, env):
+                break  # statements after a definite return are dead under the constant parameters
+
+    def _terminates(self, s, env) -> bool:
+        if isinstance(s, (ast.Return, ast.Raise)):
+            return True
+        if isinstance(s, ast.If):
+            tv = self._truth(s.test, env)
+            body = bool(s.body) and self._terminates(s.body[-1], env)
+            orelse = bool(s.orelse) and self._terminates(s.orelse[-1], env)
+            if tv is True:
+                return body
+            if tv is False:
+                return orelse
+            return body and orelse
+        return False
 
     def _truth(self, t: ast.expr, env) -> Optional[bool]:
         """Constant truth of a test under const_params (e.g. normalize=True)."""
@@ -194,6 +210,14 @@ class ShiftInterp:
                 return False
             known = [v for v in vs if v is not None]
             return None if len(known) < len(vs) else True
+        if isinstance(t, ast.BoolOp) and isinstance(t.op, ast.Or):
+            vs = [self._truth(v, env) for v in t.values]
+            if any(v is True for v in vs):
+                return True
+            return False if all(v is False for v in vs) else None
+        if isinstance(t, ast.UnaryOp) and isinstance(t.op, ast.Not):
+            v = self._truth(t.operand, env)
+            return None if v is None else (not v)
         return None
 
     def _stmt(self, s, env, rets):
